@@ -48,6 +48,7 @@ type Univ struct {
 	typeTags  map[string]int // go type string -> tag
 	nfresh    int
 	facts     []string // global facts about generated constants
+	typeTagDefs []string
 	inProg    map[string]bool
 	marshals  map[string]bool
 }
@@ -432,6 +433,16 @@ func (u *Univ) Decls() string {
 		m, um := u.MarshalFn(s)
 		fmt.Fprintf(&b, "(declare-fun %s (%s) (Slice Int))\n(declare-fun %s ((Slice Int)) %s)\n", m, s, um, s)
 		fmt.Fprintf(&b, "(assert (forall ((x %s)) (! (and (= (%s (%s x)) x) (not (sl.nil (%s x)))) :pattern ((%s x)))))\n", s, um, m, m, m)
+		// decoding yields well-typed values (integer fields within their machine ranges)
+		if info := u.structs[s]; info != nil && info.Named != nil {
+			if wt := u.WellTyped(info.Named, "("+um+" b!w)", 0); wt != "true" {
+				fmt.Fprintf(&b, "(assert (forall ((b!w (Slice Int))) (! %s :pattern ((%s b!w)))))\n", wt, um)
+			}
+		}
+	}
+	for _, d := range u.typeTagDefs {
+		b.WriteString(d)
+		b.WriteString("\n")
 	}
 	for _, p := range u.prelude {
 		b.WriteString(p)
